@@ -234,10 +234,10 @@ def run_clf(desc):
     viol = []
 
     path = desc.get("path", "fit")
-    classes_none = bool(desc.get("classes_none")) and not multi and name not in ("sliding", "sliding_pwc")      # (inferred classes of a sliding window are those of the window, not of all y)
+    classes_none = bool(desc.get("classes_none")) and not multi and name not in ("sliding", "sliding_pwc", "sliding_pwc_cls")      # (inferred classes of a sliding window are those of the window, not of all y)
     if classes_none:
         cm = None
-    windowed = name in ("sliding", "sliding_pwc") and (desc["seed"] >> 9) % 2 == 1
+    windowed = name in ("sliding", "sliding_pwc", "sliding_pwc_cls") and (desc["seed"] >> 9) % 2 == 1
 
     def run(y, ml_, classes_):
         nonlocal comp
